@@ -301,9 +301,10 @@ def units(tier, seed):
             k += 1
             descs.append(dict(engines=list(eng), gens=2, Mh=3, seed=s + k % 3, sprout={"kind": ("simple", "nbc")[k % 2], "L": 2}, obj=obj, box="B_asym", pop=(6, 10)[k % 2]))
     # a memoising objective that returns the 0-d arrays it keeps (in-place sign flips would corrupt it)
-    for eng in [e for e in shapes if len(e) == 2][::3]:
+    for eng in [e for e in shapes if len(e) == 2][::3] + [e for e in shapes if len(e) == 2 and e[1] == "LOC"]:
         k += 1
-        descs.append(dict(engines=list(eng), gens=1, Mh=3, seed=s + k % 3, sprout={"kind": ("simple", "nbc")[k % 2], "L": 2}, obj=("sphere_in", "twofunnel")[k % 2], array_memo=True))
+        descs.append(dict(engines=list(eng), gens=1, Mh=3, seed=s + k % 3, sprout={"kind": ("simple", "nbc")[k % 2], "L": 2}, obj=("sphere_in", "twofunnel")[k % 2], array_memo=True,
+                          shared_problem=bool(k % 2 or eng[1] == "LOC"), request_probe=False))
     us = [{"kind": "twin", "descs": c} for c in chunks(descs, 12)]
     for n in (2, 3, 4, 5) if tier == "quick" else (2, 3, 4, 5, 6):
         us.append({"kind": "decisions", "n": n})
